@@ -12,7 +12,7 @@ from vlib import *
 # --------------------------------------------------------------------------
 # configurations (measured: see notes/C12.md)
 
-SYN = {"quick": [("SyntaxQ.cfg", None, None)],
+SYN = {"quick": [("SyntaxQ.cfg", None, None), ("SyntaxSim.cfg", "num=12", 8)],
        "thorough": [("SyntaxT.cfg", None, None), ("SyntaxSim.cfg", "num=120", 8)]}
 LEX = {"quick": ["StrLexQ.cfg"], "thorough": ["StrLexT.cfg"]}
 
@@ -38,6 +38,7 @@ def lua_str(s):
     return '"' + "".join(out) + '"'
 
 
+KEYWORDS = ("and", "or", "not")
 SEPS = [" ", " ", "  ", "\t", "\n", "\r\n", " --c\n", " --[[ x ]] ", " --[==[\n]]\n]==] ", " --\n"]
 
 
@@ -47,7 +48,10 @@ def noise(text, rng):
     out = [toks[0]]
     for i in range(1, len(toks)):
         left, right = toks[i - 1], toks[i]
-        glue_ok = left[-1] in "()" or right[0] in "()"
+        # no separator at all is safe next to a parenthesis, and between a symbolic operator and a name
+        sym_l, sym_r = not (left[0].isalnum() or left in "()"), not (right[0].isalnum() or right in "()")
+        glue_ok = left in "()" or right in "()" or (sym_l and right.isalpha() and right not in KEYWORDS and len(right) == 1) \
+            or (sym_r and left.isalpha() and left not in KEYWORDS and len(left) == 1)
         if glue_ok and rng.random() < 0.4:
             sep = ""
         else:
@@ -72,7 +76,7 @@ class Ctx:
     def viol(self, sig, replay):
         key = json.dumps(sig, sort_keys=True)
         self.classes[key] = self.classes.get(key, 0) + 1
-        if self.classes[key] <= 3:
+        if self.classes[key] <= 1:
             self.rep.violation(sig, replay)
         else:
             # same class again: keep the known-finding bookkeeping, do not store another replay
@@ -344,6 +348,48 @@ def check_multi(cx, lines):
 
 
 # --------------------------------------------------------------------------
+# statement / expression forms
+
+def tok_json(t):
+    if t == "nil":
+        return None
+    if t.startswith("i:"):
+        return {"i": t[2:]}
+    if t.startswith("s:"):
+        return {"s": t[2:]}
+    if t.startswith("b:"):
+        return t[2:] == "true"
+    raise Infra("unknown value token " + t)
+
+
+def check_forms(cx, lines):
+    if not lines:
+        return
+    cases = []
+    for i, l in enumerate(lines):
+        cases.append({"id": 2 * i, "src": l["text"]})
+        cases.append({"id": 2 * i + 1, "src": "local f, e = load(%s, \"=c\") if not f then emit(\"loadfail\", e) else return f() end" % lua_str(l["text"])})
+    outs = run_lua_cases(cx.drv, cases)
+    for i, l in enumerate(lines):
+        cx.count("forms", "programs")
+        exp = [[tok_json(t) for t in e] for e in l["ev"]]
+        for v in (0, 1):
+            o = outs[2 * i + v]
+            cx.rep.cov["evaluations"] += 1
+            why = None
+            if bad_outcome(o) and not o.get("compile_error"):
+                why = bad_outcome(o)
+            elif o.get("compile_error") or (o["events"] and o["events"][0] and o["events"][0][0] == {"s": "loadfail"}):
+                why = "valid-rejected"
+            elif not o.get("ok") or o["events"] != exp:
+                why = "behaviour"
+            if why:
+                cx.viol({"fam": "forms", "why": why, "form": l["text"][:60]},
+                        {"cmd": "lua-run", "src": cases[2 * i + v]["src"], "expected_events": exp, "observed": o})
+    cx.rep.sample({"family": "forms", "text": lines[-1]["text"], "expected_events": lines[-1]["ev"]}, cap=20)
+
+
+# --------------------------------------------------------------------------
 # literals
 
 def ret_bytes(v):
@@ -509,7 +555,9 @@ def check_errpos(cx, lines):
             else:
                 m = LINE_RE.match(o.get("errstr", ""))
                 got_line = int(m.group(1)) if m else None
-                if got_line not in l["exp"]:
+                if got_line is None:
+                    why = "no-line"          # nothing of the form <chunk name>:<line>: at the start of the message
+                elif got_line not in l["exp"]:
                     why = "wrong-line"
         if why:
             k = l["off"]            # 1-based index of the offending line (0: none)
@@ -526,7 +574,13 @@ def check_errpos(cx, lines):
                 has_cr = rest[:1] == b"\r" or rest[:2] == b"\n\r"
             else:
                 has_cr = False
-            cx.viol({"fam": "errpos", "why": why, "after": after, "offender": off, "cr_in_token": has_cr},
+            # a valid program whose only deviation is that the marker on the line after such a comment did not run
+            lost = ""
+            if why == "events":
+                want = [m for m in l["ev"] if m not in (12, 13)]
+                if o["events"] == [[{"i": str(m)}] for m in want]:
+                    lost = "only-the-line-after-the-comment"
+            cx.viol({"fam": "errpos", "why": why, "after": after, "offender": off, "cr_in_token": has_cr, "lost": lost},
                     {"cmd": "lua-run", "srchex": src.hex(), "source": repr(src), "offending_line": off, "expected_lines": l["exp"],
                      "reported_line": got_line, "observed": o})
     cx.rep.sample({"family": "errpos", "source": repr(items[-1][1]), "expected_lines": lines[-1]["exp"]}, cap=18)
@@ -569,6 +623,7 @@ def run(prop, tier):
             check_terms(cx, conf, by.get(fam, []), rng, fam + ("-random-%d-operators" % by[fam][0]["nops"] if sim and by.get(fam) else ""))
         check_numeric(cx, conf, by.get("F2", []), rng)
         check_multi(cx, by.get("multi", []))
+        check_forms(cx, by.get("forms", []))
         ncases = sum(len(v) for k, v in by.items() if k != "conf")
         cov["states"] += res.distinct
         cov["transitions"] += res.generated
@@ -618,3 +673,23 @@ def run(prop, tier):
         "an unfinished long string / long comment may be reported at its first line or at the line where the text ends",
         "error messages are never compared, only the line number that follows the chunk name"]
     return rep.finish()
+
+
+def replay(prop, path):
+    """re-run the program of a stored replay on the current tree and print what it does now"""
+    with open(path) as f:
+        d = json.load(f)
+    r = d["replay"]
+    drv = build_driver()
+    if "srchex" in r:
+        case = {"id": 0, "srchex": r["srchex"]}
+    elif "src" in r:
+        case = {"id": 0, "src": r["src"]}
+    else:
+        text = r.get("text", "")
+        body = "emit(pcall(load(%s, \"=c\", \"t\", ENV), 21, 22, 23))" % lua_str(text if d["sig"].get("fam") == "multi" else "return " + text)
+        case = {"id": 0, "src": r.get("prelude", "local ENV = _ENV\n") + body + "\n"}
+    o = run_lua_cases(drv, [case])[0]
+    print(json.dumps({"sig": d["sig"], "expected": r.get("expected", r.get("expected_lines", r.get("expected_events"))),
+                      "observed_now": o}, indent=1))
+    return 0
